@@ -1,13 +1,21 @@
 import Liquid.Std
 import Proofs.C09
+import Proofs.RepEqRender
+import Proofs.RepEqFilters
+import Proofs.RepEqSort
 /-!
 # C18 — output depends on a binding's Liquid value, not on its Go representation
 
-Per-operation statements: each operation of the value layer gives the same result on a value and
-on its re-representation (drop wrapping, pointer, typed vs generic container, fixed array vs
-slice, `[]byte` vs string, numeric width). The whole-template statement ("rendering any template
-against environments that differ only in these choices gives identical results") is what the
-`reps` correspondence stream checks; it is not proved here (`_partial` in that sense).
+Two layers.
+
+* Per-operation statements (first part of the file): each operation of the value layer gives the
+  same result on a value and on its re-representation (drop wrapping, pointer, typed vs generic
+  container, fixed array vs slice, `[]byte` vs string, numeric width).
+* The whole-template congruence (second part): `run_rep_independent` — rendering *any* template
+  against environments whose bindings are representation-equivalent (`ERel`, built on the normal
+  form `GoVal.norm` of `Proofs/RepEq.lean`) gives the same result, for every comparison, filter
+  and output layer that respects the equivalence (`PrimsRespect`, `OutRespect`). The restrictions
+  of the equivalence that the model (hence the real code) forces are recorded as `example`s.
 -/
 
 open GoVal
@@ -113,3 +121,250 @@ theorem int_width_truthy (k : IntKind) (n : Int) : (GoVal.int k n).test = true :
 
 /-! Non-vacuity -/
 example : (GoVal.drop (.drop (.ptr (.str [97])))).unwrap = .str [97] := by simp [unwrap]
+
+
+/-! # The whole-template congruence
+
+`RepEq d a b` (`Proofs/RepEq.lean`): `a` and `b` have the same normal form — typed slices and
+fixed arrays are generic slices, typed maps are generic maps with the same key type (at every
+depth), and with `d = true` a drop inside a container is the value it yields.
+`VRel d a b := RepEq d a.unwrap b.unwrap`: values at the top of an expression are compared through
+`ValueOf(·).Interface()` (drops of every depth resolved, pointers followed, a nil pointer is nil).
+`ERel d a b`: bindings; `VRel`, and the renderer's own `forloop` record is related to itself only.
+-/
+
+/-- **C18, whole template, parametric in the value layer.** For every comparison/filter layer `P`
+and output layer `O` that respect representation equivalence (`PrimsRespect`, `OutRespect`: related
+operands compare alike, related filter inputs give related results, related values print alike),
+every configuration, file system, include depth, template source and start line: rendering
+against two environments whose bindings are pointwise representation-equivalent gives the same
+result — the same output bytes or the same error. Proved by the mutual induction over the compiled
+tree (`rel_renderNode`, `Proofs/RepEqRender.lean`) on the two runs in lock step: the same write
+calls, related variable maps (assign, capture, loop variables, `forloop`, cycle counters), the same
+include results. -/
+theorem run_rep_independent (d : Bool) (P : Prims) (O : OutPrims) (hP : PrimsRespect false d P) (hO : OutRespect false d O)
+    (cfg : Cfg) (fs : FS) (fuel : Nat) (src : Bytes) (line : Nat) (env env' : Env)
+    (he : ∀ x, ERel d (env.get x) (env'.get x)) :
+    run P O cfg fs fuel src line env = run P O cfg fs fuel src line env' :=
+  (run_rel P O cfg fs fuel hP hO src line he).eq
+
+/-- The same up to the boundary of the model: the layers need to respect the equivalence only up
+to `unmodelled` results, and the two results agree (`RunAgree true`: equal, or one of them is
+`unmodelled`). This is the form the standard configuration satisfies. -/
+theorem run_rep_independent_upto_unmodelled (d : Bool) (P : Prims) (O : OutPrims) (hP : PrimsRespect true d P)
+    (hO : OutRespect true d O) (cfg : Cfg) (fs : FS) (fuel : Nat) (src : Bytes) (line : Nat) (env env' : Env)
+    (he : ∀ x, ERel d (env.get x) (env'.get x)) :
+    RunAgree true (run P O cfg fs fuel src line env) (run P O cfg fs fuel src line env') :=
+  run_rel P O cfg fs fuel hP hO src line he
+
+/-- representation-equivalent values are related bindings -/
+theorem binding_related_of_repEq {d : Bool} {a b : GoVal} (h : RepEq d a b) : ERel d a b := h.erel
+
+/-- a binding may in addition be a pointer to a related value (not to a struct) or a drop of any depth -/
+theorem binding_related_of_unwrap {d : Bool} {a b : GoVal} (h : RepEq d a.unwrap b.unwrap)
+    (ha : isRec a = false) (hb : isRec b = false) : ERel d a b :=
+  ⟨h, fun hr => by rcases hr with hr | hr <;> simp_all⟩
+
+/-- a nil pointer binding is a nil binding -/
+theorem binding_nilPtr_nil (d : Bool) : ERel d .nilPtr .nil :=
+  binding_related_of_unwrap (by simp [unwrap, RepEq.refl]) (by simp [isRec, cyclesOf]) (by simp [isRec, cyclesOf])
+
+/-! Non-vacuity: concrete related bindings, and layers that satisfy the hypotheses. -/
+
+/-- a drop of a typed slice holding a drop ~ the generic slice of the values -/
+example : RepEq true (.drop (.slice (.int .int) [.int .int 1, .drop (.int .int 2)])) (.slice .any [.int .int 1, .int .int 2]) := by
+  simp [RepEq, norm, normList, dropRigid, isRec, cyclesOf]
+
+/-- a typed map of typed arrays ~ the generic map whose value is a drop of a generic slice -/
+example : RepEq true (.map .str (.slice .str) [(.str [97], .array .str [.str [98]])])
+    (.map .str .any [(.str [97], .drop (.slice .any [.str [98]]))]) := by
+  simp [RepEq, norm, normList, normKVs, dropRigid, isRec, cyclesOf]
+
+/-- a binding that is a pointer to a drop of a typed slice ~ the generic slice (also with `d = false`) -/
+example : ERel false (.ptr (.drop (.slice (.int .int) [.int .int 1]))) (.slice .any [.int .int 1]) :=
+  binding_related_of_unwrap (by simp [RepEq, unwrap, norm, normList]) (by simp [isRec, cyclesOf]) (by simp [isRec, cyclesOf])
+
+/-- layers that satisfy the hypotheses: comparison by a constant, the identity filter, no output -/
+example : PrimsRespect false true
+    { equal := fun _ _ => .ok true, less := fun _ _ => .ok false, contains := fun _ _ => .ok false,
+      equalFn := fun _ _ => .ok true, applyFilter := fun _ r _ => .ok r, hasFilter := fun _ => true } :=
+  { equal := fun _ _ _ _ _ _ => rfl, less := fun _ _ _ _ _ _ => rfl, contains := fun _ _ _ _ _ _ => rfl,
+    equalFn := fun _ _ _ _ _ _ => rfl, applyFilter := fun _ _ _ _ _ hr _ => hr.2.2.vrel }
+
+example : OutRespect false true { chunks := fun _ => .ok [] } := { chunks := fun _ _ _ => rfl }
+
+/-- the hypothesis on the environments, on an environment binding `x` to a drop of a typed slice
+    and one binding it to the generic slice -/
+example : ∀ y, ERel true (Env.get [([120], .drop (.slice (.int .int) [.int .int 1]))] y)
+    (Env.get [([120], .slice .any [.int .int 1])] y) := by
+  intro y
+  by_cases h : y = [120]
+  · subst h
+    exact binding_related_of_repEq (by simp [Env.get, RepEq, norm, normList, dropRigid, isRec, cyclesOf])
+  · have : ([120] == y) = false := by simp [Ne.symm h]
+    simp [Env.get, List.find?, this, ERel.refl]
+
+/-! ## Restrictions of the equivalence forced by the model (each with its counterexample) -/
+
+/-- *Integer width is not forgotten*: as an index only a Go `int` (or a float) selects an element
+(`arrayValue.IndexValue` switches on `int`, `float32`, `float64`); the same for the bounds of a
+range and for `limit`/`offset`/`cols` (`Value.Int()`). Template `{{ a[i] }}` with
+`a = []any{"x"}`, `i = int64(0)` prints nothing, with `i = int(0)` it prints `x`. -/
+example : indexValue (.slice .any [.str [120]]) (.int .i64 0) = .val .nil ∧
+    indexValue (.slice .any [.str [120]]) (.int .int 0) = .val (.str [120]) := by
+  constructor <;> simp [indexValue, unwrap, indexValue.indexList]
+
+example : intOf (.int .i64 3) = none ∧ intOf (.int .int 3) = some 3 := by
+  constructor <;> simp [intOf, unwrap]
+
+/-- *The renderer's `forloop` record is rigid*: the `cycle` tag recognises the record by the Go
+type of its counter map (`cycleCounters`, unexported: no binding can have it), so a drop around
+such a record is not the record. (A model-only restriction: not realisable from Go.) -/
+example : (cyclesOf (.drop (forloopRec 0 1 []))).isSome = false ∧ (cyclesOf (forloopRec 0 1 [])).isSome = true := by
+  constructor <;> simp [cyclesOf, forloopRec, dotCycles]
+
+/-- *Pointers are followed at the top only*: a pointer nested in a container is not its pointee
+(`{{ m }}` prints an address, `m.a` follows it), so `norm` keeps pointers and only `unwrap`
+(bindings, results of expressions) resolves them. -/
+example : sprint (.ptr (.int .int 1)) = .unmodelled "fmt: a pointer prints as an address" ∧
+    sprint (.int .int 1) = .ok [49] := by
+  constructor
+  · simp [sprint]
+  · rfl
+
+
+/-! # The standard configuration
+
+With `d = false` the equivalence relates typed slices, fixed arrays and typed maps with the
+generic containers of the same contents at every depth, and — through `unwrap` — a binding that is
+a drop (of any depth) or a pointer (not to a struct) with the value it stands for. For this
+relation the standard output layer (`stdOut_respects`), the standard comparisons
+(`opEq_prep_vrel`, `opLt_prep_vrel`, `opContains_prep_vrel`, `equal_prep_repEq`) and every standard
+filter except those that observe the Go representation (`reprFilters`: `uniq`, and the value/debugging
+filters `json`, `inspect`, `type`) respect it (`filterRespects_std`: exactly, all but `sort`,
+`sort_natural` and `reprFilters`; `filterRespects_std_upto`: up to `unmodelled`, all but `reprFilters`). Drops *inside*
+containers are not covered for the standard configuration: see the counterexamples below. -/
+
+/-- **C18 for the standard configuration** (partial). `allowed` says which filters are registered
+on the engine (`stdPrimsOnly allowed`; with `fun _ => true` it is `stdPrims`). Rendering any
+template against environments whose bindings are representation-equivalent (`ERel false`) gives
+results that agree (`RunAgree true`: the same output or the same error, or one of the two runs is
+outside the model).
+
+Full statement wanted: the same for `stdPrims`, with equal results, for `ERel true`. What is missing,
+and why (each with an evaluated counterexample below):
+* `hrepr` — `uniq`, `json`, `inspect` and `type` must not be registered: they do *not* respect the
+  equivalence (`uniq` compares elements by Go interface equality, which sees the element type of a
+  nested slice; `type` prints the Go type; `json`/`inspect` marshal the Go value: a `[]uint8` is
+  base64 text, a `map[any]any` is rejected);
+* "agree" instead of "equal": a fixed-array needle against an ordered map with a fixed-array key is
+  `unmodelled` (`comparableV`) while the generic slice gives `false`; `sort`/`sort_natural` answer
+  `unmodelled` for more than 12 elements with ties that differ in their encoding (up to 12 elements —
+  Go's insertion sort, modelled exactly — they respect the equivalence exactly:
+  `sortWith_rel_short`, `sortNaturalWith_rel_short`);
+* `d = false`: drops nested in containers are exposed by `fmt.Sprint` (printing a map, a string
+  filter applied to an array), and a drop that yields a drop by `values.Equal`. -/
+theorem run_std_rep_independent_partial (allowed : Bytes → Bool) (hrepr : ∀ n ∈ reprFilters, allowed n = false)
+    (cfg : Cfg) (fs : FS) (fuel : Nat) (src : Bytes) (line : Nat) (env env' : Env)
+    (he : ∀ x, ERel false (env.get x) (env'.get x)) :
+    RunAgree true (run (stdPrimsOnly allowed) stdOut cfg fs fuel src line env)
+      (run (stdPrimsOnly allowed) stdOut cfg fs fuel src line env') := by
+  refine run_rel _ _ cfg fs fuel (stdPrimsOnly_respects allowed ?_) (stdOut_respects true) src line he
+  intro n _ ha
+  refine filterRespects_std_upto n (fun hn => ?_)
+  rw [hrepr n hn] at ha
+  cases ha
+
+/-- **C18 for the standard engine without `uniq`, `json`, `inspect`, `type`** (the filters that observe
+the Go representation): no hypothesis left. Every template, every file system and include depth:
+environments that differ in typed vs generic slices, fixed arrays vs slices, typed vs generic maps
+(at any depth), and in drops and pointers around a binding, render to agreeing results. -/
+theorem run_std_rep_independent_without_repr_filters (cfg : Cfg) (fs : FS) (fuel : Nat) (src : Bytes) (line : Nat) (env env' : Env)
+    (he : ∀ x, ERel false (env.get x) (env'.get x)) :
+    RunAgree true (run (stdPrimsOnly withoutRepr) stdOut cfg fs fuel src line env)
+      (run (stdPrimsOnly withoutRepr) stdOut cfg fs fuel src line env') :=
+  run_std_rep_independent_partial withoutRepr (fun n hn => by simp [withoutRepr, hn]) cfg fs fuel src line env env' he
+
+/-- the output layer respects the equivalence exactly (no `unmodelled` escape) -/
+example (v v' : GoVal) (h : URel false v v') : stdOut.chunks v = stdOut.chunks v' :=
+  ((stdOut_respects false).chunks v v' h).eq
+
+/-- the hypotheses on the environments are satisfiable: `x` bound to a drop of a pointer to a typed
+    slice of fixed arrays, against the generic slice of generic slices -/
+example : ∀ y, ERel false
+    (Env.get [([120], .drop (.ptr (.slice (.arr (.int .int)) [.array (.int .int) [.int .int 1]])))] y)
+    (Env.get [([120], .slice .any [.slice .any [.int .int 1]])] y) := by
+  intro y
+  by_cases h : y = [120]
+  · subst h
+    exact binding_related_of_unwrap (by simp [Env.get, RepEq, unwrap, norm, normList])
+      (by simp [Env.get, isRec, cyclesOf]) (by simp [Env.get, isRec, cyclesOf])
+  · have : ([120] == y) = false := by simp [Ne.symm h]
+    simp [Env.get, List.find?, this, ERel.refl]
+
+/-- a filter with scalar parameters (`append`: `string, string`) respects the equivalence
+    whatever its body -/
+example : FilterRespects false (ArrF.bn "append") :=
+  filterRespects_of_scalar false _ (fun sg h => by
+    have : lookupSig (ArrF.bn "append") = some ⟨ArrF.bn "append", [.val .str, .val .str], false⟩ := by decide +kernel
+    rw [this] at h; cases h; rfl)
+
+/-! ## What the standard configuration forces (counterexamples; each is a place where the real
+code distinguishes representations that C18 declares equivalent — each was also run on the real
+engine of /repo with the template and the two bindings named in its comment, with the two
+different results stated) -/
+
+/-- *`uniq` sees the element type of nested slices.* Template `{{ a | uniq | size }}` with
+`a = []any{[]int{1}, []any{1}}` gives 2, with `a = []any{[]any{1}, []any{1}}` gives 1
+(`uniqFilter` compares with `==` / `reflect.DeepEqual`: same dynamic type and contents). -/
+example : lenOfRes (stdPrims.applyFilter (ArrF.bn "uniq") (.slice .any [.slice (.int .int) [.int .int 1], .slice .any [.int .int 1]]) []) = 2 ∧
+    lenOfRes (stdPrims.applyFilter (ArrF.bn "uniq") (.slice .any [.slice .any [.int .int 1], .slice .any [.int .int 1]]) []) = 1 := by
+  decide +kernel
+
+/-- *`type` prints the Go type.* Template `{{ a | type }}` with `a = []int{1}` prints `[]int`, with
+`a = []any{1}` it prints `[]interface {}` — the purpose of the filter. -/
+example : (match stdPrims.applyFilter (JsonF.bn "type") (.slice (.int .int) [.int .int 1]) [],
+                 stdPrims.applyFilter (JsonF.bn "type") (.slice .any [.int .int 1]) [] with
+    | .ok (.str a), .ok (.str b) => a == JsonF.bn "[]int" && b == JsonF.bn "[]interface {}"
+    | _, _ => false) = true := by
+  decide +kernel
+
+/-- *`json` (and `inspect`) marshal the Go value.* Template `{{ a | json }}` with `a = []uint8{1}`
+(a `[]byte`) prints `"AQ=="`, with `a = []any{uint8(1)}` it prints `[1]`; with `m = map[any]any{"a": 1}`
+it prints nothing (`json.Marshal` rejects the map type), with `m = map[string]any{"a": 1}` it prints `{"a":1}`. -/
+example : (match stdPrims.applyFilter (JsonF.bn "json") (.slice (.int .u8) [.int .u8 1]) [],
+                 stdPrims.applyFilter (JsonF.bn "json") (.slice .any [.int .u8 1]) [],
+                 stdPrims.applyFilter (JsonF.bn "json") (.map .any .any [(.str [97], .int .int 1)]) [],
+                 stdPrims.applyFilter (JsonF.bn "json") (.map .str .any [(.str [97], .int .int 1)]) [] with
+    | .ok (.str a), .ok (.str b), .ok (.str c), .ok (.str d) =>
+      a == [34, 65, 81, 61, 61, 34] && b == [91, 49, 93] && c == [] && d == [123, 34, 97, 34, 58, 49, 125]
+    | _, _, _, _ => false) = true := by
+  decide +kernel
+
+/-- *`fmt.Sprint` shows a drop inside a map.* Template `{{ m }}` with `m = map[string]any{"a": Drop{1}}`
+prints `map[a:{1}]`, with `m = map[string]any{"a": 1}` it prints `map[a:1]`. -/
+example : stdChunks (.map .str .any [(.str [97], .drop (.int .int 1))]) = .ok [[109, 97, 112, 91, 97, 58, 123, 49, 125, 93]] ∧
+    stdChunks (.map .str .any [(.str [97], .int .int 1)]) = .ok [[109, 97, 112, 91, 97, 58, 49, 93]] := by
+  decide +kernel
+
+/-- *A string filter applied to an array shows the drops in it.* Template `{{ a | append: "" }}` with
+`a = []any{Drop{1}}` gives `[{1}]`, with `a = []any{1}` it gives `[1]` (`Convert(·, string)` is
+`fmt.Sprint` after one `ToLiquid` of the array itself). -/
+example : strOfRes (stdPrims.applyFilter (ArrF.bn "append") (.slice .any [.drop (.int .int 1)]) [.str []]) = [91, 123, 49, 125, 93] ∧
+    strOfRes (stdPrims.applyFilter (ArrF.bn "append") (.slice .any [.int .int 1]) [.str []]) = [91, 49, 93] := by
+  decide +kernel
+
+/-- *A drop that yields a drop, inside an array, is not its final value for `values.Equal`*
+(`ToLiquid` is applied once per element). Template `{% case a %}{% when b %}eq{% endcase %}` with
+`a = []any{DropOf(DropOf(1))}`, `b = []any{1}` does not print `eq`; with `a = []any{1}` it does. -/
+example : stdPrims.equalFn (.slice .any [.drop (.drop (.int .int 1))]) (.slice .any [.int .int 1]) ≠ .ok true ∧
+    stdPrims.equalFn (.slice .any [.int .int 1]) (.slice .any [.int .int 1]) = .ok true := by
+  decide +kernel
+
+/-- *A fixed array is comparable in Go, a slice is not.* `m contains x` for an ordered map `m` with
+the key `[1]int{1}`: with `x = [1]int{1}` the model makes no claim (`==` on arrays: `unmodelled`; in
+Go the comparison succeeds), with `x = []int{1}` it is false. Hence "agree" (`RunAgree true`). -/
+example : stdPrims.contains (.mapSlice [(.array (.int .int) [.int .int 1], .nil)]) (.array (.int .int) [.int .int 1])
+      = .unmodelled "comparability of an array value" ∧
+    stdPrims.contains (.mapSlice [(.array (.int .int) [.int .int 1], .nil)]) (.slice (.int .int) [.int .int 1]) = .ok false := by
+  decide +kernel
